@@ -390,7 +390,7 @@ def temporaries_scenarios():
                 f'daglish_legacy.memoized_traverse raised {type(e).__name__}: {str(e)[:80]}'))
   # identity rebuild must preserve the rows
   rb = daglish.MemoizedTraversal.run(lambda v, s: s.map_children(v), root)
-  got = [t.rows for row in rb[0].rows for t in row]
+  got = [[list(r) for r in t.rows] for row in rb[0].rows for t in row]
   if got != [rows, rows]:
     out.append(({'clause': 'temporaries-rebuild-wrong'}, f'{got}'))
   return out
